@@ -56,6 +56,14 @@ o P7 240310#E4 todo in c due::2024-06-30 n::007
 {H2R} Sub Two %p1 %p2
 
 o P8 240312#F2 deep todo +j1
+
+{H3R} Deeper Three @c1
+
+- 240315#F3 note under an h3 [[b]] n::10
+
+{H4R} Deepest Four
+
+x P2 240316#F4 done under an h4 s::abc due::2024-06-01
 """,
     "ps.zo": """# PS
 
